@@ -62,7 +62,7 @@ def spec_cookie_dict(c, sid):
 def run(ctx):
     res = vlib.Result()
     res.rule = ('configuration grid: ping_interval (integer, fractional, with grace) x ping_timeout x max_http_buffer_size x allow_upgrades x transports x cookie '
-                '(none, name, dict with string / boolean / callable attributes, empty dict) x every connect-handler outcome (None, True, False, 0, "", text, dict, list, exception, TypeError) '
+                '(none, name, dict with string / boolean / callable attributes, empty dict) x every connect-handler outcome (None, True, False, 0, "", text, dict, list, exception, TypeError, sends to the new sid and accepts) '
                 'x polling / WebSocket open x JSONP, on both servers, sampled; a case is one open request. distinct = distinct (server, configuration, outcome, open kind)')
     rng = ctx.rng
     oterms, ocases, cterms, ccases = [], [], [], []
@@ -83,7 +83,7 @@ def run(ctx):
             tlist = [tp] if isinstance(tp, str) else tp
             try:
                 for _k in range(4):
-                    oc = rng.choice(OUTCOMES + ['none', 'none', 'true'])
+                    oc = rng.choice(OUTCOMES + ['none', 'none', 'true', 'send', 'send'])      # 'send': the handler sends to the new sid, then accepts
                     kind = rng.choice(['polling', 'polling', 'websocket'])
                     jq = rng.choice([None, None, '3']) if kind == 'polling' else None
                     case = dict(server=drv_kind, interval=I, grace=g, timeout=T, maxbuf=mb, allow_upgrades=au, transports=tlist, cookie=ck, outcome=oc, open=kind, jsonp=jq)
@@ -97,7 +97,7 @@ def run(ctx):
                         conn = d.conns[cid]
                     rec = d.response(rid)
                     allowed = kind in tlist
-                    res.count(case, True, '%s:%s:%s' % (kind, 'accept' if oc in ('none', 'true') else 'reject', 'allowed' if allowed else 'refused'))
+                    res.count(case, True, '%s:%s:%s' % (kind, 'accept' if oc in ('none', 'true', 'send') else 'reject', 'allowed' if allowed else 'refused'))
                     facts = dict(server=drv_kind, open=kind)
                     if not allowed:
                         st = rec.get('status') if rec else None
@@ -109,7 +109,7 @@ def run(ctx):
                     if hsid is None or [e[1] for e in evs].count('connect') != 1:
                         res.violations.append(dict(what='the connect handler did not run exactly once for an admitted open', case=case, facts=dict(facts, clause='connect-once')))
                         continue
-                    accept = oc in ('none', 'true')
+                    accept = oc in ('none', 'true', 'send')
                     if not accept:
                         st = rec.get('status') if rec else None
                         body = rec.get('body') if rec else None
